@@ -866,6 +866,9 @@ func (tr tableReader) iterateAllChunks(ctx context.Context, cb func(chunk chunks
 			buf = make([]byte, chunk.length)
 		}
 		_, err := io.ReadFull(bufReader, buf[:chunk.length])
+		if err != nil {
+			return err
+		}
 		chunkData := buf[:chunk.length]
 
 		cchk, err := NewCompressedChunk(chunk.hash, chunkData)
